@@ -26,6 +26,8 @@ pub enum Op {
     B(BOp),
     /// only meaningful for the RemovedFromMulti flavour: the point at which the bar is removed
     Remove,
+    /// the same, with the k-th terminal call made during the removal failing once
+    RemoveFaulty(u8),
 }
 
 pub struct C06 {
@@ -96,8 +98,11 @@ impl Hist for C06 {
             v.retain(|o| !matches!(o, BOp::Inc(7) | BOp::Dec(1) | BOp::IncLen(_) | BOp::Style(_) | BOp::ResetEta | BOp::AbandonMsg(_) | BOp::FinishMsg(_) | BOp::UpdatePos(_) | BOp::Prefix(_)));
         }
         let mut out: Vec<Op> = v.into_iter().map(Op::B).collect();
-        if self.flavour == Flavour::RemovedFromMulti && !prefix.contains(&Op::Remove) {
+        if self.flavour == Flavour::RemovedFromMulti && !prefix.iter().any(|o| matches!(o, Op::Remove | Op::RemoveFaulty(_))) {
             out.insert(0, Op::Remove);
+            for k in 0..4u8 {
+                out.insert(1, Op::RemoveFaulty(k));
+            }
         }
         out
     }
@@ -142,12 +147,18 @@ impl Hist for C06 {
                     apply(&subject, b);
                 }
                 Op::Remove => mp.as_ref().unwrap().remove(&subject),
+                Op::RemoveFaulty(k) => {
+                    let at = spy.st().fallible_calls + *k as usize;
+                    spy.st().fault = crate::term::Fault::Once(at);
+                    mp.as_ref().unwrap().remove(&subject);
+                    spy.st().fault = crate::term::Fault::None;
+                }
             });
             if let Err(p) = r {
                 let _ = catch(move || drop((twin, subject, mp)));
                 return Verdict::Bad(Violation { class: format!("panic: {}", panic_class(&p)), config: self.config(), history: shown[..=i].to_vec(), detail: p });
             }
-            if *op == Op::Remove {
+            if matches!(op, Op::Remove | Op::RemoveFaulty(_)) {
                 removed_calls = Some(spy.calls());
             }
             if i + 1 == hist.len() {
